@@ -64,6 +64,44 @@ fn main() {
                 if s.len() != 1 { return None; } match &s[0].3 { DebugValue::Histogram(x) => Some(x.iter().map(|f| f.into_inner().to_bits()).collect()), _ => None } };
             if !(vals(&s1) == Some(vec![a.to_bits(), b.to_bits()]) && vals(&s2) == Some(vec![c.to_bits()]) && vals(&s3) == Some(vec![])) { v.push("histogram_values_in_exactly_one_snapshot"); }
         }
+        "c19_histogram_record_during_snapshot" => {
+            // The solver says: some position of a concurrent record() inside snapshot() makes the value appear in no snapshot or in two.
+            // Native search for that position: the snapshot thread runs p instrumented steps, then the recorder runs to completion,
+            // then the snapshot finishes; p = 0, 1, 2, ... until the snapshot thread has no more steps.
+            let (a, x) = (f64::from_bits(inp("a")), 7.5f64);
+            let a = if a.to_bits() == x.to_bits() { 1.25 } else { a };
+            let mut found = false;
+            for p in 0..400usize {
+                let rec = DebuggingRecorder::new();
+                let snap = rec.snapshotter();
+                let h = rec.register_histogram(&Key::from_name("h"), &MD);
+                h.record(a);
+                let mut sched = vec![1usize; p];
+                sched.extend(std::iter::repeat(2usize).take(4000));
+                install(sched);
+                let h2 = h.clone();
+                let snap1 = snap.clone();
+                let t1 = std::thread::spawn(move || { set_thread(1); let s = snap1.snapshot().into_vec(); thread_done(); s });
+                let t2 = std::thread::spawn(move || { set_thread(2); h2.record(x); thread_done(); });
+                let s1 = t1.join().unwrap();
+                t2.join().unwrap();
+                let (pos, _) = consumed();
+                install(vec![]);
+                let s2 = snap.snapshot().into_vec();
+                let s3 = snap.snapshot().into_vec();
+                let count = |s: &Vec<(metrics_util::CompositeKey, Option<Unit>, Option<SharedString>, DebugValue)>, v: f64| -> usize {
+                    s.iter().map(|e| match &e.3 { DebugValue::Histogram(xs) => xs.iter().filter(|f| f.into_inner().to_bits() == v.to_bits()).count(), _ => 0 }).sum() };
+                let nx = count(&s1, x) + count(&s2, x) + count(&s3, x);
+                let na = count(&s1, a) + count(&s2, a) + count(&s3, a);
+                if nx != 1 || na != 1 {
+                    println!("record() after {} steps of snapshot(): the concurrently recorded value appears {} times, the earlier value {} times, over three snapshots", p, nx, na);
+                    found = true;
+                    break;
+                }
+                if pos < p { println!("snapshot() has {} instrumented steps; every position tried", pos); break; }
+            }
+            if found { v.push("concurrently_recorded_value_in_exactly_one_snapshot"); }
+        }
         s => panic!("unknown scenario {}", s),
     }
     finish(&v, &plan)
